@@ -4,13 +4,19 @@
       to the denotation of its abstract syntax, under every assignment;
     - [print_wf]: the printer family produces grammatical written expressions;
     - rejection of the malformed classes. *)
-From Coq Require Import List Bool Arith Lia Strings.Byte.
+From Coq Require Import List Bool Arith NArith Lia Strings.Byte.
 From YV Require Import Feature.IfFeature.
 Import ListNotations.
 
 (** * bytes *)
-Lemma byte_eqb_refl x : Byte.eqb x x = true.
-Proof. apply Byte.byte_dec_lb; reflexivity. Qed.
+Lemma byte_eqb_refl x : beq x x = true.
+Proof. unfold beq. apply N.eqb_refl. Qed.
+
+Lemma beq_true x y : beq x y = true -> x = y.
+Proof.
+  unfold beq. intros H. apply N.eqb_eq in H.
+  pose proof (Byte.of_to_N x) as Hx. pose proof (Byte.of_to_N y) as Hy. rewrite H in Hx. congruence.
+Qed.
 
 Lemma bytes_eqb_refl a : bytes_eqb a a = true.
 Proof. induction a; simpl; [reflexivity|]. rewrite byte_eqb_refl, IHa. reflexivity. Qed.
@@ -19,7 +25,7 @@ Lemma bytes_eqb_eq a b : bytes_eqb a b = true <-> a = b.
 Proof.
   split.
   - revert b. induction a as [|x a IH]; destruct b as [|y b]; simpl; intros H; try discriminate; auto.
-    apply andb_true_iff in H as [H1 H2]. apply Byte.byte_dec_bl in H1. subst. f_equal. auto.
+    apply andb_true_iff in H as [H1 H2]. apply beq_true in H1. subst. f_equal. auto.
   - intros ->. apply bytes_eqb_refl.
 Qed.
 
@@ -68,7 +74,7 @@ Lemma next_paren b k : is_paren b = true -> next is_ws (b :: k) = ([b], k).
 Proof.
   intros H. unfold next. simpl eatws.
   assert (is_ws b = false) as ->.
-  { unfold is_paren in H. apply orb_true_iff in H as [H|H]; apply Byte.byte_dec_bl in H; subst; reflexivity. }
+  { destruct b; try discriminate H; reflexivity. }
   rewrite H. reflexivity.
 Qed.
 
@@ -695,6 +701,12 @@ Section Correct.
   Qed.
 End Correct.
 
+Lemma reject_dangling : forall e c w0 w1 w2,
+  wf c = true -> all_ws w0 = true -> is_sep w1 = true -> all_ws w2 = true ->
+  eval_impl (w0 ++ render c ++ w1 ++ kw_and ++ w2) e = RErr /\
+  eval_impl (w0 ++ render c ++ w1 ++ kw_or ++ w2) e = RErr.
+Proof. intros; split; [apply reject_dangling_and|apply reject_dangling_or]; assumption. Qed.
+
 (** * The printer family produces grammatical written expressions *)
 Lemma lvl_wrap sty k c : 0 < k -> lvl (wrap sty k c) = 2.
 Proof. destruct k; [lia|reflexivity]. Qed.
@@ -767,3 +779,8 @@ Proof. split; vm_compute; reflexivity. Qed.
 Lemma lenient_not_paren :
   eval_impl [x6e;x6f;x74;x28;x61;x29] all_off = ROk true.
 Proof. vm_compute. reflexivity. Qed.
+
+Lemma old_eval_refuted_print :
+  old_eval_impl (print_text (mkStyle [x20] [] 0) witness_expr) all_off = ROk true /\
+  denote witness_expr all_off = false.
+Proof. rewrite witness_is_print. exact old_eval_refuted. Qed.
